@@ -78,7 +78,9 @@ class Distribution(nn.Module):
             samples = [self._sample(batch_size, context) for _ in range(num_batches)]
             if num_leftover > 0:
                 samples.append(self._sample(num_leftover, context))
-            return torch.cat(samples, dim=0)
+            # Without context the samples are stacked along dim 0; with context they have shape
+            # [context_size, batch, ...] and are stacked along the sample dimension.
+            return torch.cat(samples, dim=0 if context is None else 1)
 
     def _sample(self, num_samples, context):
         raise NotImplementedError()
